@@ -2281,6 +2281,10 @@ class _ReadDTCType1Response(
                 from_bytes(dtc_and_status_record[i : i + 3]): dtc_and_status_record[i + 3]
                 for i in range(0, len(dtc_and_status_record), 4)
             }
+
+            if len(self.dtc_and_status_record) * 4 != len(dtc_and_status_record):
+                # A mapping cannot hold the same DTC twice; do not silently drop records
+                raise ValueError("The dtc_and_status_record contains a DTC more than once")
         else:
             for dtc, status in dtc_and_status_record.items():
                 check_range(dtc, "DTC", 0, 0xFFFFFF)
